@@ -15,7 +15,8 @@ ProtoOfMilli(v) ==
   ELSE IF m < 1500 THEN <<40000, "linear7", 20000>>
   ELSE <<80000, "squared", 10000>>
 \* raising the ratio shifts the mix towards CPU-heavy prototypes: the map draw -> cpu seconds is monotone
-ProtoMonotone == \A a, b \in -3000..3000 : a <= b => ProtoOfMilli(a)[1] <= ProtoOfMilli(b)[1] /\ ProtoOfMilli(a)[3] >= ProtoOfMilli(b)[3]
+\* neighbouring draws suffice (<= is transitive); TLC evaluates this constant at start-up of every module that extends GenOps, so it has to be cheap
+ProtoMonotone == \A a \in -3000..2999 : ProtoOfMilli(a)[1] <= ProtoOfMilli(a + 1)[1] /\ ProtoOfMilli(a)[3] >= ProtoOfMilli(a + 1)[3]
 
 \* waiting rule: the gap after an event is the draw if positive, else the mean
 WaitOf(draw, mean) == IF draw > 0 THEN draw ELSE mean
